@@ -146,11 +146,9 @@ deriving DecidableEq, Repr
 
 /-- `compute_normal(pts, tol)` without its final normalisation.  `v1` = longest centred vector,
     `vk` = centred vector with the longest cross product with `v1`; the collinearity test
-    `allclose(normal, 0, atol = tol·scaling)` is taken squared.  The model follows the PROPERTY
-    (documented contract: collinear points raise): `scaling = |v1|²`, i.e. every point is closer
-    than `tol·|v1|` to the line through the centre along `v1`.  The code scales with `|v1|·|vk|`,
-    which lets exactly collinear sets through when `vk` is a point at the centre (zero up to
-    rounding, arbitrary direction) — finding `plane:collinear-accepted`. -/
+    `allclose(normal, 0, atol = tol·|v1|²)` is taken squared: every point is closer than
+    `tol·|v1|` to the line through the centre along `v1` (scaling as repaired in /repo; the
+    earlier `|v1|·|vk|` let collinear sets with a point at the centre through). -/
 def computeNormal (tol : Rat) (pts : List V3) : NormalRes :=
   if pts.length ≤ 2 then .tooFew else
   match centered pts with
@@ -178,12 +176,22 @@ def computeTangent (tol : Rat) (pts : List V3) : Option V3 :=
     if isSmall tol t then none else some t
 
 /-- `compute_normals_1d` for the tangent `t`, un-normalised: `n₁ = (t_y, −t_x, 0)` and
-    `n₂ = rotation_matrix(π/2, t) n₁ = t × n₁` (for unit `t ⟂ n₁`).  The model follows the
-    PROPERTY: for a tangent along the z-axis (`t_x = t_y = 0`, where the code divides 0 by 0)
-    the first normal is `e_x`. -/
+    `n₂ = rotation_matrix(π/2, t) n₁ = t × n₁` (for unit `t ⟂ n₁`); for a tangent along the
+    z-axis (`t_x = t_y = 0`) the first normal is `e_x` (branch added by the repair in /repo). -/
 def normals1d (t : V3) : V3 × V3 :=
   let n1 : V3 := if t.x = 0 ∧ t.y = 0 then V3.ex else ⟨t.y, -t.x, 0⟩
   (n1, cross t n1)
+
+/-- `force_point_collinearity`: a point at relative distance `l = |p − p₀| / |p_end − p₀|` from the
+    first point `p₀` is moved to `p₀ (1 − l) + p_end l` (the square roots in `l` are outside). -/
+def fpcPoint (p0 pe : V3) (l : Rat) : V3 := V3.add (V3.smul (1 - l) p0) (V3.smul l pe)
+
+/-- `end = np.argmax(dist)`: the (first) point farthest from the first point -/
+def fpcEnd : List V3 → Option V3
+  | [] => none
+  | p0 :: ps => some (maxBy (fun p => normSq (V3.sub p p0)) p0 ps)
+
+def forcePointCollinearity (p0 pe : V3) (lams : List Rat) : List V3 := lams.map (fpcPoint p0 pe)
 
 /-- `np.dot(R, pts)` of `map_grid` -/
 def mapPoints (R : M3) (pts : List V3) : List V3 := pts.map (mulVec R)
